@@ -52,6 +52,8 @@ type features struct {
 	shadowHasStore bool
 	// shadowHasTrap: ... contain div/rem, a jump (j/jal/jalr), a conditional branch or an undefined label
 	shadowHasTrap bool
+	// shadowHasErrTrap: ... contain div/rem or a reference to an undefined label
+	shadowHasErrTrap bool
 	// shadowHasMem: ... contain a load or a store
 	shadowHasMem bool
 	// shadowHasJump: ... contain a jump or branch
@@ -173,9 +175,13 @@ func featuresOf(c *core.Case) *features {
 				if sh.Op == isa.DIV || sh.Op == isa.REM || sh.Op.IsJump() || sh.Op.IsCondBranch() {
 					f.shadowHasTrap = true
 				}
+				if sh.Op == isa.DIV || sh.Op == isa.REM {
+					f.shadowHasErrTrap = true
+				}
 				if sh.Label != "" {
 					if _, ok := p.Labels[sh.Label]; !ok {
 						f.shadowHasTrap = true
+						f.shadowHasErrTrap = true
 					}
 				}
 				if sh.Op.IsJump() || sh.Op.IsCondBranch() || sh.Op == isa.RET {
